@@ -324,12 +324,21 @@ class AudioSim(AoefSim):
         start = op["start"]
         end = op["end"]
         node = self.node(op["node"])
-        reply = node.call(
-            "a_load_clip", recording=spec, start=start, end=end,
-            handle=op["h"], audio_dir=rec["audio_dir"],
-            audio_as=op.get("audio_as", "str"),
-            _env=self.env_audio(op.get("fault")),
-        )
+        try:
+            reply = node.call(
+                "a_load_clip", recording=spec, start=start, end=end,
+                handle=op["h"], audio_dir=rec["audio_dir"],
+                audio_as=op.get("audio_as", "str"),
+                _env=self.env_audio(op.get("fault")),
+            )
+        except NodeCrashed:
+            if "crash" not in (op.get("fault") or ""):
+                raise HarnessError("node died in load_clip without an injected crash") from None
+            self.restart(op["node"])
+            self.faults_fired.hit(op["fault"])
+            self.record(op, "crashed")
+            self.trace.append(("load_clip", "crashed"))
+            return
         self.note_fault(op, reply)
         fired = bool(reply.get("_fault_fired"))
         disk = self.on_disk(rec["file"])
@@ -461,10 +470,19 @@ class AudioSim(AoefSim):
         st = self.afiles[rec["file"]]
         spec = rec["spec"]
         node = self.node(op["node"])
-        reply = node.call(
-            "a_load_recording", recording=spec, handle=op["h"],
-            audio_dir=rec["audio_dir"], _env=self.env_audio(op.get("fault")),
-        )
+        try:
+            reply = node.call(
+                "a_load_recording", recording=spec, handle=op["h"],
+                audio_dir=rec["audio_dir"], _env=self.env_audio(op.get("fault")),
+            )
+        except NodeCrashed:
+            if "crash" not in (op.get("fault") or ""):
+                raise HarnessError("node died in load_recording without an injected crash") from None
+            self.restart(op["node"])
+            self.faults_fired.hit(op["fault"])
+            self.record(op, "crashed")
+            self.trace.append(("load_recording", "crashed"))
+            return
         self.note_fault(op, reply)
         fired = bool(reply.get("_fault_fired"))
         disk = self.on_disk(rec["file"])
@@ -747,7 +765,8 @@ def gen_ops(rng, cfg, seed_tag):
 
     def afault():
         if cfg["faults"] and rng.random() < 0.3:
-            return rng.choice(["sf_open_error", "sf_read_error"])
+            return rng.choice(["sf_open_error", "sf_read_error",
+                               "sf_open_crash", "sf_read_crash"])
         return None
 
     while len(ops) < cfg["max_ops"]:
@@ -812,8 +831,11 @@ def gen_ops(rng, cfg, seed_tag):
             if rng.random() < 0.5:
                 ops.append({"op": "recheck", "src": src})
         elif pat == "fault" and cfg["faults"]:
-            load_clip(r, rng.choice(["sf_open_error", "sf_read_error"]))
+            load_clip(r, rng.choice(["sf_open_error", "sf_read_error",
+                                     "sf_open_crash", "sf_read_crash"]))
             load_clip(r)
+            if rng.random() < 0.5:
+                load_recording(r)
         elif pat == "restart":
             ops.append({"op": "restart", "node": node()})
             load_clip(r)
@@ -933,5 +955,7 @@ CORE_PROBES = {
         "file:torn-header",
         "sf_open_error",
         "sf_read_error",
+        "sf_open_crash",
+        "sf_read_crash",
     ],
 }
